@@ -122,10 +122,50 @@ fn gen_input(r: &mut Rng, maxlen: usize) -> (&'static str, Vec<u8>) {
         let d = r.below(7) as i64 - 3;
         ((base as i64 + d).max(0) as usize).min(maxlen)
     };
-    match r.below(12) {
+    match r.below(14) {
         0 | 1 => {
             let d = gen_doc(r, maxlen);
             ("valid", d.bytes)
+        }
+        12 | 13 => {
+            // long strings: escapes / quotes placed at the edges of 16/32/64-byte chunks with
+            // WHOLE chunks of plain in-string bytes in between (a chunk-skipping fast path must
+            // carry the in-escape state across the chunks it skips)
+            let c = *r.pick(&[16usize, 32, 32, 64]);
+            let mut b: Vec<u8> = vec![];
+            for _ in 0..r.below(3) {
+                b.push(*r.pick(b" [{,"));
+            }
+            b.push(b'"');
+            for _ in 0..r.range(1, 5) {
+                // plain bytes up to a chosen residue of the chunk size, after 0..3 whole chunks
+                let want = *r.pick(&[c - 1, c - 1, 0, c - 2, 1]);
+                let whole = r.below(4) as usize * c;
+                let mut n = (want + c - b.len() % c) % c + whole;
+                if n > maxlen {
+                    n = maxlen;
+                }
+                for _ in 0..n {
+                    b.push(*r.pick(b"abcxyz 0123,:[]{}"));
+                }
+                match r.below(6) {
+                    0 => b.extend_from_slice(b"\\n"),
+                    1 => b.extend_from_slice(b"\\\""),
+                    2 => b.extend_from_slice(b"\\\\"),
+                    3 => b.extend_from_slice(b"\",\""),
+                    4 => b.push(b'\\'),
+                    _ => b.extend_from_slice(b"\\u00e9"),
+                }
+            }
+            let whole = r.range(1, 3) as usize * c;
+            let n = (c - b.len() % c) % c + whole;
+            for _ in 0..n {
+                b.push(b'p');
+            }
+            let tail: &[u8] = *r.pick(&[&b"\""[..], b"\",1]", b"\":2}", b"", b"\\\"\""]);
+            b.extend_from_slice(tail);
+            b.truncate(maxlen.max(64));
+            ("longstr", b)
         }
         2 | 3 => {
             // mutated valid JSON
